@@ -112,6 +112,14 @@ def dec(j, lib=None):
                 return float(j["v"])
             if t == "longstr":
                 return j.get("ch", "a") * j["n"]
+            if t == "listn":
+                return [j.get("item", "a")] * j["n"]
+            if t == "tuplen":
+                return tuple([j.get("item", "a")] * j["n"])
+            if t == "dictn":
+                return {"%s%d" % (j.get("prefix", "k"), i): j.get("item", 0) for i in range(j["n"])}
+            if t == "bytesn":
+                return (j.get("ch", "a") * j["n"]).encode("ascii")
             if t in PALETTE:
                 return PALETTE[t]()
             raise ValueError("unknown $py tag %r" % t)
